@@ -196,6 +196,34 @@ def regen_locks(ctx=None):
         lock.close()
 
 
+TRANS_DIR = os.path.join(VERIF, "go", "trans")
+CODE_LEAN = os.path.join(LEAN_DIR, "Helios", "Generated", "Code.lean")
+
+
+def regen_code(ctx=None):
+    """Tie C: re-translate the listed Go functions of /repo's current source into Lean
+    (Helios/Generated/Code.lean); Props/Code.lean proves them equal to the hand-written models."""
+    exe = os.path.join(TRANS_DIR, "trans")
+    lock = _lake_lock()
+    try:
+        if not os.path.exists(exe) or os.path.getmtime(exe) < os.path.getmtime(os.path.join(TRANS_DIR, "main.go")):
+            p = subprocess.run(["go", "build", "-o", "trans", "."], cwd=TRANS_DIR, env=GOENV,
+                               stdout=subprocess.PIPE, stderr=subprocess.STDOUT, text=True, timeout=600)
+            if p.returncode != 0:
+                raise BuildError("translator does not build: " + p.stdout[-1500:])
+        p = subprocess.run([exe, REPO], stdout=subprocess.PIPE, stderr=subprocess.PIPE, text=True, timeout=300, env=GOENV)
+        if p.returncode != 0 or "namespace Helios.Generated.Code" not in p.stdout:
+            raise BuildError("translator failed: " + p.stderr[-1500:])
+        old = open(CODE_LEAN, encoding="utf-8").read() if os.path.exists(CODE_LEAN) else ""
+        if old != p.stdout:
+            with open(CODE_LEAN, "w", encoding="utf-8") as f:
+                f.write(p.stdout)
+            return True
+        return False
+    finally:
+        lock.close()
+
+
 def _theorem_blocks(path):
     """[(short name, namespace-qualified name, first line, last line, text)] of a Lean file"""
     lines = open(path, encoding="utf-8").read().split("\n")
@@ -257,6 +285,9 @@ def prove(ctx, modules, theorems):
         # these modules import Generated/Locks.lean: it must describe the tree being checked
         if regen_locks(ctx):
             ctx.notes.append("lock rows regenerated from the source differ from the committed Generated/Locks.lean")
+    if "Helios.Props.Code" in modules:
+        if regen_code(ctx):
+            ctx.notes.append("functions translated from the source differ from the committed Generated/Code.lean")
     ok, log = lake_build(list(modules) + ["driver"])
     build_detail = ""
     blamed = {}      # theorem -> reason, for theorems of modules that no longer build
